@@ -119,14 +119,24 @@ def _parse(
                 dt,
             )
 
-        return pendulum.interval(
-            pendulum.instance(
-                t.cast(datetime.datetime, parsed.start), tz=options.get("tz", UTC)
-            ),
-            pendulum.instance(
-                t.cast(datetime.datetime, parsed.end), tz=options.get("tz", UTC)
-            ),
+        start = pendulum.instance(
+            t.cast(datetime.datetime, parsed.start), tz=options.get("tz", UTC)
         )
+        end = pendulum.instance(
+            t.cast(datetime.datetime, parsed.end), tz=options.get("tz", UTC)
+        )
+        if (
+            isinstance(start, datetime.datetime)
+            and isinstance(end, datetime.datetime)
+            and (start.tzinfo is None) != (end.tzinfo is None)
+        ):
+            # tz=None: one endpoint carries an offset, the other does not
+            raise ParserError(
+                f"Unable to parse string [{text}]: "
+                "the endpoints are not both naive or both aware"
+            )
+
+        return pendulum.interval(start, end)
 
     if isinstance(parsed, Duration):
         return parsed
